@@ -23,6 +23,7 @@ type unitRun struct {
 	Err     error
 	GenMs   int64
 	SolveMs int64
+	lost    []*Result // obligations whose anchor (call site) vanished from the code
 }
 
 var dumpOnly bool
@@ -268,7 +269,7 @@ func runUnit(w *World, u *unitRun, tmp string, quickT, slowT int, verbose bool) 
 			return
 		}
 		u.GenMs = time.Since(t0).Milliseconds()
-		u.Results = solveAll(tmp, g, g.Obligations(), quickT, slowT)
+		u.Results = append(solveAll(tmp, g, g.Obligations(), quickT, slowT), u.lost...)
 		return
 	}
 	fn := w.findFunc(dir, u.Fc.Name)
@@ -345,10 +346,20 @@ func runUnit(w *World, u *unitRun, tmp string, quickT, slowT int, verbose bool) 
 			return
 		}
 	}
-	for k := range u.Fc.CallSites {
+	// A call site that carries proof obligations (`callsite F#N requires ...`) and is no longer in the code: the
+	// obligations cannot be discharged any more - reported as failed obligations (a violation), not as a machinery
+	// error. A call site that only carries assumptions (modifies/ensures) is a stale contract: machinery error.
+	var lost []*Result
+	for k, cs := range u.Fc.CallSites {
 		if !g.sitesSeen["callsite "+k] {
-			u.Err = fmt.Errorf("CONTRACT-ANCHOR-LOST %s: call site %s (callsite clause) not found", u.Unit, k)
-			return
+			if len(cs.Requires) == 0 {
+				u.Err = fmt.Errorf("CONTRACT-ANCHOR-LOST %s: call site %s (callsite clause) not found", u.Unit, k)
+				return
+			}
+			for i, c := range cs.Requires {
+				ob := &Oblig{Unit: u.Unit, Name: "call-pre:" + k + "." + clauseName(c, i), Kind: "call-pre", Desc: "the call " + k + " that this clause constrains is no longer made: " + c.Src, Contractual: true, Props: u.Fc.Props}
+				lost = append(lost, &Result{Ob: ob, Status: "anchor-lost", Backend: "structural", Output: "the function no longer contains call site " + k + "; the contract requires of that call: " + c.Src})
+			}
 		}
 	}
 	for _, gh := range u.Fc.Ghosts {
@@ -359,10 +370,11 @@ func runUnit(w *World, u *unitRun, tmp string, quickT, slowT int, verbose bool) 
 	}
 	for _, a := range u.Fc.Asserts {
 		if !g.assertsSeen[a.Name] {
-			u.Err = fmt.Errorf("CONTRACT-ANCHOR-LOST %s: call site %s of assert %s not found", u.Unit, a.Site, a.Name)
-			return
+			ob := &Oblig{Unit: u.Unit, Name: "assert:" + a.Name, Kind: "assert", Desc: "the call " + a.Site + " after which this assertion stands is no longer made: " + a.Src, Contractual: true, Props: u.Fc.Props}
+			lost = append(lost, &Result{Ob: ob, Status: "anchor-lost", Backend: "structural", Output: "the function no longer contains call site " + a.Site + " (assertion " + a.Name + ": " + a.Src + ")"})
 		}
 	}
+	u.lost = lost
 	u.GenMs = time.Since(t0).Milliseconds()
 	if dumpOnly {
 		for _, ob := range g.Obligations() {
@@ -373,7 +385,7 @@ func runUnit(w *World, u *unitRun, tmp string, quickT, slowT int, verbose bool) 
 		return
 	}
 	t1 := time.Now()
-	u.Results = solveAll(tmp, g, g.Obligations(), quickT, slowT)
+	u.Results = append(solveAll(tmp, g, g.Obligations(), quickT, slowT), u.lost...)
 	u.SolveMs = time.Since(t1).Milliseconds()
 	if verbose {
 		for _, r := range u.Results {
